@@ -34,10 +34,10 @@ PLANNED_TAGS = ['insert:below-first-interior', 'insert:between', 'insert:equal',
 def bounds(tier):
     return dict(init_breakpoints='1-3 of %s' % LAT_Q if tier == 'quick' else '1-6 of %s' % LAT_T,
                 insert_breakpoints=INS_B, insert_slopes=INS_S,
-                depth=3 if tier == 'quick' else DEPTH_T, temperatures=TEMPS)
+                depth=3 if tier == 'quick' else '4 (5 from initial lists of <= 2 breakpoints)', temperatures=TEMPS)
 
 
-DEPTH_T = 5
+DEPTH_T = 4
 
 
 INT_SLOPE_CYCLE = [3, -12, 8]          # whole-number slopes given as Python ints (integer-typed buffers truncate)
@@ -67,7 +67,10 @@ def _int_inits():
 
 
 def shards(tier):
-    out = [dict(init=i, depth=3 if tier == 'quick' else DEPTH_T) for i in _inits(tier)]
+    # thorough: depth 4 from every initial list, depth 5 from the lists with one or two breakpoints (a depth-5
+    # BFS from a six-breakpoint list alone costs about an hour of CPU)
+    out = [dict(init=i, depth=3 if tier == 'quick' else (DEPTH_T + 1 if len(i['intervals']) <= 2 else DEPTH_T))
+           for i in _inits(tier)]
     out += [dict(init=i, depth=2 if tier == 'quick' else 4) for i in _int_inits()]
     out += [dict(kind='shared', n=n) for n in (1, 2, 3)]
     return out
@@ -379,6 +382,6 @@ def _replay_silent(init, hist):
 LEVEL_TEXT = ('Explicit-state BFS over edit histories of the real PiecewiseCovEffect (insert/pop/reload) from every '
               'initial breakpoint list of the alphabet; all invariants evaluated in every reachable state and the '
               'pair-multiset law on every transition; complete up to the stated depth.')
-LEVEL_NOTE = ('Breakpoints/slopes from finite lattices; depth 3 (quick) / 5 (thorough); equal-breakpoint placement '
+LEVEL_NOTE = ('Breakpoints/slopes from finite lattices; depth 3 (quick) / 4-5 (thorough); equal-breakpoint placement '
               'left free as the statement leaves it.')
 TECHNIQUE = 'explicit-state BFS over operation histories on the implementation, reference-model oracle'
